@@ -179,6 +179,17 @@ func (t *Table) addGlobalIndex(gsiInput *types.GlobalSecondaryIndex) error {
 		return err
 	}
 
+	// items written before the index was created belong to it as well
+	for _, key := range t.SortedKeys {
+		indexKey, err := i.keySchema.GetKey(t.AttributesDef, t.Data[key])
+		if err != nil {
+			// an item whose index key attributes have another type is not part of the index
+			continue
+		}
+
+		i.set(key, indexKey)
+	}
+
 	t.Indexes[*gsiInput.IndexName] = i
 
 	return nil
